@@ -3,6 +3,7 @@ import Poly.Util.Proto
 import Poly.Model.Native
 import Poly.Model.NativeWitness
 import Poly.Generated.Guards
+import Poly.Model.Sig
 /- Driver for the native-runtime families. `drv_native <family>` reads op lines on stdin. -/
 open Poly
 open Poly.Model.Native
@@ -241,47 +242,77 @@ def seqHandler : Handler := fun args =>
           | _ => .fail
       | _, _ => .fail
 
+/-- One signature entry of the op language: keys / m / signatures, as characters (a key is named by a character, a
+signature by the character of the key that made it; `x` = undecodable bytes, `w` = signature of another message). -/
+def parseEntry (s : String) : Option (Poly.Model.Sig.Entry Char Char) :=
+  match s.splitOn "/" with
+  | [ks, m, sg] => do
+    let mm ← m.toNat?
+    pure { keys := ks.toList, m := mm, sigs := if sg = "-" then [] else sg.toList }
+  | _ => none
+
+/-- The outcome of a call given its signer set (shared by call lines and signature-entry lines). -/
+def outcome (kind contract method via op ow du pr po : String) (signers : List Addr) : Option String := do
+  let g ← generatedGuard contract method
+  let via ← (field "via" via) >>= viaAddrs
+  let operator ← (field "operator" op) >>= Hex.ofHex
+  let owner ← (field "owneraddr" ow) >>= Hex.ofHex
+  let due ← field "due" du
+  let post ← field "post" po
+  let pre ← field "pre" pr
+  let required := match g with
+    | .operator => operator
+    | .operatorOrDue => operator
+    | .ownerParam => owner
+    | .none => []
+  let body : Prog := if post = "ok" then .put [1] [1] (.ret [1]) else if post = "panic" then .log "panic" .fail else .fail
+  -- validation some handlers perform before asking for the witness fails for every signer alike
+  let target : Handler := fun _ => if pre = "ok" then guarded g required (due = "1") body else .fail
+  let reg : Registry := fun a =>
+    if a = addrT then some [(ascii "m", target)]
+    else if a = addrA ∨ a = addrB then some [(ascii "relay", relayHandler), (ascii "seq", seqHandler)]
+    else none
+  -- the transaction's payer field is not a witness: the model does not look at it
+  let direct := encodeParam addrT (ascii "m") []
+  let code :=
+    if kind = "seq" then
+      encodeParam addrA (ascii "seq") (varBytes direct ++ varBytes (relayCode [addrB] direct))
+    else relayCode via direct
+  let tx : Tx := { signers := signers, code := code, chainOk := true }
+  let res := (execTx leafHash reg { base := [], height := 1, time := 1 } { overlay := [], cache := [] } tx).2
+  if res.ok then pure "ok"
+  else if res.log.contains "panic" then pure "panic"
+  else if res.log.contains "reject:witness" then
+    -- in a `seq` the first call may legitimately have written before the second one is refused
+    if kind = "seq" then pure "reject:witness"
+    else pure ("reject:witness w=" ++ toString (res.effs.filter (fun e => match e with | .write _ _ => true | _ => false)).length)
+  else pure "reject:other"
+
 def step (_ : Unit) (toks : List String) : Unit × String :=
   match toks with
   | ["height", _] => ((), "ok")
   | ["world", _] => ((), "ok")
+  | "sigtx" :: contract :: method :: _ :: _ :: es :: "|" :: op :: ow :: ea :: du :: pr :: po :: [] =>
+    -- real signature entries: the signer set is what the model of checkTransactionSignatures (Poly.Model.Sig) attributes
+    let r : Option String := do
+      let entries ← (field "entries" es) >>= fun e => (e.splitOn "+").mapM parseEntry
+      let addrs ← (field "eaddrs" ea) >>= hexList
+      if addrs.length ≠ entries.length then none
+      let table := entries.zip addrs
+      let lookup (keys : List Char) (m : Nat) : Addr :=
+        match table.find? fun p => p.1.keys == keys && p.1.m == m with
+        | some p => p.2
+        | none => []
+      let wf : Char → Bool := fun c => c != 'x'
+      let verify : Char → Char → Bool := fun k c => c == k && c != 'w' && c != 'x'
+      match Poly.Model.Sig.checkTransactionSignatures wf verify (fun k => lookup [k] 1) lookup entries with
+      | .error _ => pure "sigerr"
+      | .ok as => outcome "try" contract method "via=-" op ow du pr po (Poly.Model.Sig.dedup as)
+    ((), r.getD "bad-op")
   | kind :: contract :: method :: _ :: via :: _ :: _ :: _ :: "|" :: op :: ow :: sg :: du :: pr :: po :: [] =>
     let r : Option String := do
-      let g ← generatedGuard contract method
-      let via ← (field "via" via) >>= viaAddrs
-      let operator ← (field "operator" op) >>= Hex.ofHex
-      let owner ← (field "owneraddr" ow) >>= Hex.ofHex
       let signers ← (field "signeraddrs" sg) >>= hexList
-      let due ← field "due" du
-      let post ← field "post" po
-      let pre ← field "pre" pr
-      let required := match g with
-        | .operator => operator
-        | .operatorOrDue => operator
-        | .ownerParam => owner
-        | .none => []
-      let body : Prog := if post = "ok" then .put [1] [1] (.ret [1]) else if post = "panic" then .log "panic" .fail else .fail
-      -- validation some handlers perform before asking for the witness fails for every signer alike
-      let target : Handler := fun _ => if pre = "ok" then guarded g required (due = "1") body else .fail
-      let reg : Registry := fun a =>
-        if a = addrT then some [(ascii "m", target)]
-        else if a = addrA ∨ a = addrB then some [(ascii "relay", relayHandler), (ascii "seq", seqHandler)]
-        else none
-      -- the transaction's payer field is not a witness: the model does not look at it
-      let direct := encodeParam addrT (ascii "m") []
-      let code :=
-        if kind = "seq" then
-          encodeParam addrA (ascii "seq") (varBytes direct ++ varBytes (relayCode [addrB] direct))
-        else relayCode via direct
-      let tx : Tx := { signers := signers, code := code, chainOk := true }
-      let res := (execTx leafHash reg { base := [], height := 1, time := 1 } { overlay := [], cache := [] } tx).2
-      if res.ok then pure "ok"
-      else if res.log.contains "panic" then pure "panic"
-      else if res.log.contains "reject:witness" then
-        -- in a `seq` the first call may legitimately have written before the second one is refused
-        if kind = "seq" then pure "reject:witness"
-        else pure ("reject:witness w=" ++ toString (res.effs.filter (fun e => match e with | .write _ _ => true | _ => false)).length)
-      else pure "reject:other"
+      outcome kind contract method via op ow du pr po signers
     ((), r.getD "bad-op")
   | _ => ((), "bad-op")
 
